@@ -36,6 +36,7 @@ type Engine struct {
 	loadErrs   []string
 	keyHints   map[string]Sort
 	globalInit map[*ssa.Global]bool
+	esc        *escOracle
 }
 
 func (e *Engine) stringID(s string) int {
@@ -379,5 +380,27 @@ func (vc *VC) finish() {
 		o.Name = fmt.Sprintf("%s#canary.%d", vc.fname(), c.Ord)
 		o.Tags = c.Tags
 		o.Canary = true
+	}
+	// allocation effect: on every return where the clause's condition holds the count is zero
+	if vc.tracksAlloc() && len(vc.con.NoAlloc) > 0 && len(vc.retNalloc) == len(vc.retR) {
+		n := vc.retNalloc[len(vc.retNalloc)-1]
+		for k := len(vc.retNalloc) - 2; k >= 0; k-- {
+			n = ite(vc.retR[k], vc.retNalloc[k], n)
+		}
+		n = vc.def("nalloc_exit", SInt, n)
+		// calleesok: no call made on the returning path reported an error
+		nf := vc.retNfail[len(vc.retNfail)-1]
+		for k := len(vc.retNfail) - 2; k >= 0; k-- {
+			nf = ite(vc.retR[k], vc.retNfail[k], nf)
+		}
+		env.vars["calleesok"] = boolV(eq(vc.def("nfail_exit", SInt, nf), "0"))
+		for _, c := range vc.con.NoAlloc {
+			o := vc.oblige("noalloc", Rexit, implies(vc.evalBool(c.E, env), eq(n, "0")), vc.fn.Pos(), "no heap allocation when "+c.Text)
+			o.Name = fmt.Sprintf("%s#noalloc.%d", vc.fname(), c.Ord)
+			o.Tags = c.Tags
+		}
+		for _, s := range vc.allocSites {
+			vc.note("allocation site (compiler escape analysis): %s", s)
+		}
 	}
 }
